@@ -98,7 +98,7 @@ def compare(chk, case, views):
         if any("\n" in (p.get("doc") or "") for p in list(ir["params"].values()) + list((ir.get("returns") or {}).values())):
             base["multiline_doc"] = True  # root-cause marker: some description of the input spans several lines
         if "raises" in b:
-            chk.failure({**base, "field": "raises", "exc": b["raises"]}, "%s: round %d parses, round %d raises %s" % (fmt, k + 1, k + 2, b["raises"]), rp)
+            chk.failure({**base, "field": "raises", "exc": b["raises"], "trigger_doc": any(p.get("doc") in TRIGGER_DOCS for p in ir["params"].values())}, "%s: round %d parses, round %d raises %s" % (fmt, k + 1, k + 2, b["raises"]), rp)
             return True
         if a["doc"] != b["doc"]:
             chk.failure({**base, "field": "header", "change": diff_kind(a["doc"], b["doc"])}, "%s: header doc round %d %r -> round %d %r" % (fmt, k + 1, a["doc"], k + 2, b["doc"]), rp)
